@@ -70,6 +70,13 @@ func (e *Engine) loopEnter(st *State, li *loopInfo, b *ssa.BasicBlock, prev *ssa
 	fr := st.top()
 	spec := e.loopSpecFor(fr, li)
 	ctx := &LoopCtx{Spec: spec, Ord: li.Ord, Info: li}
+	if spec == nil {
+		// a range loop over a slice of concrete constant length (variadic argument lists, literals) is executed exactly
+		if n, ok := e.constRangeLen(st, li); ok && n <= 64 {
+			spec = &LoopSpec{N: li.Ord, Unroll: int(n) + 1}
+			ctx.Spec = spec
+		}
+	}
 	if spec != nil && spec.Unroll > 0 {
 		ctx.Unrolled = 1
 		fr.Active[b] = ctx
@@ -231,6 +238,16 @@ func (e *Engine) havocForLoop(st *State, W *writeSet, ctx *LoopCtx, li *loopInfo
 		}
 		e.setH(st, cl, tb.Fresh("lh_"+cl, s))
 	}
+	// references stored anywhere in the (havocked) heap denote allocated objects: global well-formedness,
+	// restated for the new heap terms because spec-level reads do not add it pointwise
+	e.pendingWF = nil
+	for _, cl := range sortedKeys(all) {
+		k, ok := e.classKinds[cl]
+		if !ok || (k != LKRef && k != LKSlArr) {
+			continue
+		}
+		e.pendingWF = append(e.pendingWF, cl)
+	}
 	for it := range W.Iters {
 		is, ok := st.Iters[it]
 		if !ok {
@@ -264,6 +281,20 @@ func (e *Engine) havocForLoop(st *State, W *writeSet, ctx *LoopCtx, li *loopInfo
 		st.Alloc = na
 		st.noteAlloc()
 	}
+	for _, cl := range e.pendingWF {
+		h := st.Heap[cl]
+		r := tb.BoundVar("r", SInt)
+		switch h.Sort {
+		case SArrI:
+			v := tb.Select(h, r)
+			e.assumeQuiet(st, tb.Forall([]*Term{r}, tb.And(tb.Le(tb.Int(0), v), tb.Lt(v, st.Alloc)), []*Term{v}))
+		case SArr2I:
+			i := tb.BoundVar("i", SInt)
+			v := tb.Select(tb.Select(h, r), i)
+			e.assumeQuiet(st, tb.Forall([]*Term{r, i}, tb.And(tb.Le(tb.Int(0), v), tb.Lt(v, st.Alloc)), []*Term{v}))
+		}
+	}
+	e.pendingWF = nil
 }
 
 func (e *Engine) loopSpecCtx(st *State, ctx *LoopCtx) *specCtx {
@@ -317,6 +348,37 @@ func (e *Engine) autoInvariants(st *State, li *loopInfo, ctx *LoopCtx) []*Term {
 				if lv, ok := e.tryGet(st, lenV); ok {
 					ri := st.Cells[id].V.T[0]
 					out = append(out, tb.And(tb.Le(tb.Int(-1), ri), tb.Lt(ri, tb.Ite(tb.Gt(lv.T[0], tb.Int(0)), lv.T[0], tb.Int(0)))))
+				}
+			}
+		}
+	}
+	// range-over-int loops: 0 <= iter < n (n is the right operand of the latch comparison iter+1 < n)
+	if li.Header.Comment == "rangeint.body" {
+		var itAlloc *ssa.Alloc
+		for _, in := range li.Header.Instrs {
+			if ld, ok := in.(*ssa.UnOp); ok && ld.Op == token.MUL {
+				if al, ok := ld.X.(*ssa.Alloc); ok && al.Comment == "rangeint.iter" {
+					itAlloc = al
+				}
+			}
+		}
+		var nV ssa.Value
+		for b := range li.Blocks {
+			for _, in := range b.Instrs {
+				if bo, ok := in.(*ssa.BinOp); ok && bo.Op == token.LSS {
+					if add, ok := bo.X.(*ssa.BinOp); ok && add.Op == token.ADD {
+						if ld, ok := add.X.(*ssa.UnOp); ok && ld.X == ssa.Value(itAlloc) {
+							nV = bo.Y
+						}
+					}
+				}
+			}
+		}
+		if itAlloc != nil && nV != nil {
+			if id, ok := fr.Cells[itAlloc]; ok {
+				if nv, ok := e.tryGet(st, nV); ok {
+					it := st.Cells[id].V.T[0]
+					out = append(out, tb.And(tb.Le(tb.Int(0), it), tb.Lt(it, nv.T[0])))
 				}
 			}
 		}
@@ -476,4 +538,19 @@ func (e *Engine) frameGoal(h0, h1 *Term, class string, locs []Loc, a0 *Term) *Te
 	}
 	main := tb.Forall([]*Term{r}, tb.Implies(tb.And(conds...), tb.Eq(tb.Select(h1, r), tb.Select(h0, r))))
 	return tb.And(append([]*Term{main}, rowGoals...)...)
+}
+
+// constRangeLen reports the constant trip count of a rangeindex loop, if the ranged length is a constant on this path.
+func (e *Engine) constRangeLen(st *State, li *loopInfo) (int64, bool) {
+	if li.Header.Comment != "rangeindex.loop" {
+		return 0, false
+	}
+	for _, in := range li.Header.Instrs {
+		if bo, ok := in.(*ssa.BinOp); ok && bo.Op == token.LSS {
+			if lv, ok := e.tryGet(st, bo.Y); ok && len(lv.T) == 1 {
+				return lv.T[0].ConstInt()
+			}
+		}
+	}
+	return 0, false
 }
